@@ -34,7 +34,8 @@ from vb.rt import close
 PID = 'C07'
 NAMES = ['b2', 'B10', 'a_mid']          # order of appearance; sorted: B10 < a_mid < b2
 A = [1, 2, 3]
-C = [[1, 2, 6], [-2, 0, -1], [4, 4, 1]]  # centers per parameter per row: means 3, -1, 3
+C = [[1, 2, 6], [-2, 0, -1], [4, 4, 1]]  # centers per parameter per row
+S = [1, 2, 1]                             # row scales (a data column): weighted means 11/4, -3/4, 13/4
 ALGOS = ['scipy', 'LS-newton', 'TR-newton', 'LS-BFGS', 'TR-BFGS', 'simple_bounds', 'simple_bounds_newton', 'simple_bounds_BFGS', 'automatic']
 
 
@@ -54,6 +55,7 @@ def module(bound_cfgs, starts, fixed_pats, algos):
 EXTENDS Estimation
 G_A == {seq(str(a) for a in A)}
 G_C == {cs}
+G_S == {seq(str(v) for v in S)}
 G_BoundCfgs == {bc}
 G_Starts == {st}
 G_FixedPats == {fp}
@@ -68,6 +70,7 @@ CONSTANTS
  NR = 3
  A <- G_A
  C <- G_C
+ S <- G_S
  BoundCfgs <- G_BoundCfgs
  Starts <- G_Starts
  FixedPats <- G_FixedPats
@@ -89,7 +92,9 @@ def build(rec, save_iterations=False):
     import biogeme.expressions as ex
 
     nrows = len(C[0])
-    d = db.Database('c07', pd.DataFrame({f'c{p}': [float(C[p][r]) for r in range(nrows)] for p in range(3)}))
+    cols = {f'c{p}': [float(C[p][r]) for r in range(nrows)] for p in range(3)}
+    cols['s'] = [float(v) for v in S]
+    d = db.Database('c07', pd.DataFrame(cols))
     betas = []
     f = None
     for p, nm in enumerate(NAMES):
@@ -99,7 +104,7 @@ def build(rec, save_iterations=False):
         be = ex.Beta(nm, fq(rec['start'][p]), lo, hi, 1 if rec['fixed'][p] else 0)
         betas.append(be)
         dd = be - ex.Variable(f'c{p}')
-        t = -A[p] * (dd * dd)
+        t = -A[p] * (ex.Variable('s') * (dd * dd))
         f = t if f is None else f + t
     b = bio.BIOGEME(d, f, optimization_algorithm=rec['algo'], save_iterations=save_iterations, generate_html=False, generate_pickle=False)
     b.modelName = 'c07'
@@ -118,11 +123,11 @@ def check_reported(rec, results, free, fidx, out, label=''):
     xv = {nm: est[nm] for nm in free}
     xfull = [xv[nm] if nm in xv else fq(rec['start'][p]) for p, nm in enumerate(NAMES)]
     nrows = len(C[0])
-    grow = np.array([[-2 * A[p] * (xfull[p] - C[p][r]) for p in fidx] for r in range(nrows)])
+    grow = np.array([[-2 * A[p] * S[r] * (xfull[p] - C[p][r]) for p in fidx] for r in range(nrows)])
     g_want = grow.sum(axis=0)
-    h_want = np.diag([-2.0 * A[p] * nrows for p in fidx])
+    h_want = np.diag([-2.0 * A[p] * sum(S) for p in fidx])
     b_want = np.einsum('ri,rj->ij', grow, grow)
-    ll_want = -sum(A[p] * sum((xfull[p] - C[p][r]) ** 2 for r in range(nrows)) for p in range(3))
+    ll_want = -sum(A[p] * sum(S[r] * (xfull[p] - C[p][r]) ** 2 for r in range(nrows)) for p in range(3))
     scale = max(1.0, float(np.max(np.abs(b_want))))
     if not close(float(data.logLike), ll_want, rel=1e-10, abs_=1e-10):
         out.append(dict(what=label + 'reported log likelihood is not the likelihood at the reported estimates', got=float(data.logLike), want=ll_want))
@@ -312,17 +317,18 @@ def validate(traces):
 def body(chk: check.Check):
     rt.setup(chk.seed)
     quick = chk.tier == 'quick'
-    # bounds per parameter (means are 3, -1, 3)
+    # bounds per parameter (weighted means are 11/4, -3/4, 13/4)
     bound_cfgs = [
         [(None, None), (None, None), (None, None)],
         [(-10, 10), (-10, 10), (-10, 10)],        # inactive
         [(4, 10), (None, None), (None, 2)],       # active lower on b2, active upper on a_mid
         [(None, 5), ('-1/2', None), (0, '7/2')],  # one-sided inactive, active lower on B10, inactive box
+        [(None, None), (0, None), (None, None)],  # active bound AT ZERO on B10: the estimate is exactly 0.0
     ]
-    starts = [['0', '0', '1'], ['5', '-1/2', '2'], ['9/2', '3', '3/2']]
+    starts = [['0', '0', '1'], ['5', '-1/2', '2'], ['9/2', '3', '3/2'], ['1', '1/2', '2']]
     fixed = [[False, False, False], [False, True, False]]
     if quick:
-        starts = starts[:2]
+        starts = [starts[0], starts[1], starts[3]]
     mod = module(bound_cfgs, starts, fixed, ALGOS)
     res = tlc.run('EstGen', CFG, extra_modules={'EstGen': mod}, workers='auto', timeout=1800)
     chk.add_tlc('Estimation: bound configurations x starts x fixed patterns x algorithms', res)
